@@ -18,7 +18,11 @@ class C12(Check):
             "EOF) x chunkings (whole, octet by octet, cuts at frame boundaries +-1, split length octets, random with empty "
             "reads) through the real server TCP loop (DecorateReader records what readTCP returned), Conn.ReadMsgHeader and "
             "Conn.Read; Conn.Write and response.Write for sizes 0..70000; Client.ExchangeWithConn over scripted stream and "
-            "datagram conns with foreign/stale/duplicate/short/undecodable/over-long replies in random order. Exhaustive: "
+            "datagram conns with foreign/stale/duplicate/short/undecodable/over-long replies in random order; the same "
+            "schedules against EVERY exported exchange entry point (enumerated at run time from the library's source and "
+            "by reflection: Exchange, ExchangeContext, ExchangeConn, Client.Exchange, ExchangeContext, ExchangeWithConn, "
+            "ExchangeWithConnContext; an entry point without a driver is reported) over scripted stream/datagram conns "
+            "resp. scripted UDP/TCP peers on 127.0.0.1. Exhaustive: "
             "every EOF offset x every single split point of a four-frame stream (741 runs). Direct oracles restate the "
             "property on the implementation (reference frame parser, ID rule, cross-talk checks). Timed exchanges: paced "
             "scripted peers (and a peer on 127.0.0.1) send a never-ending stream of foreign/stale/duplicate replies at rates "
@@ -75,6 +79,11 @@ class C12(Check):
         "[decodes] (does Msg.Unpack succeed) is a parameter of the exchange model (property C02 is about the decoder)",
         "short writes: dns.Conn issues exactly one Write per frame and returns the transport's error; a transport that "
         "accepts fewer octets without reporting an error violates io.Writer and is outside the model",
+        "the deprecated ExchangeConn over a datagram conn returns ErrId for a foreign first reply instead of skipping it "
+        "(known finding C12/Exchange/ExchangeConn-udp-no-skip; it never returns a foreign reply without an error); the "
+        "model and the theorems describe the skipping exchange of Client.ExchangeWithConnContext",
+        "exchanges against peers on 127.0.0.1 are judged only on outcomes that do not depend on time (reply, ErrId, "
+        "decode error, EOF); a timeout where a reply was due is counted, not reported",
         "over datagrams a short (<12 octets) or undecodable datagram ends the exchange with that error instead of being "
         "skipped (modelled and proved as the code does it; the property text speaks of replies with other IDs)",
     ]
